@@ -38,6 +38,70 @@ pub(crate) fn get_occurrence_length(
     (max_length as i32, disp)
 }
 
+/// Walks the tokens of an LZ10/LZ11 stream the way the decoder does and reports whether a
+/// back-reference reaches before the start of the output. The decoder does not check for
+/// this and panics. Anything else that is wrong with the stream is left to the decoder.
+pub(crate) fn has_reference_before_start(bytes: &[u8]) -> bool {
+    if bytes.len() < 4 || (bytes[0] != 0x10 && bytes[0] != 0x11) {
+        return false;
+    }
+    let lz11 = bytes[0] == 0x11;
+    let mut length = bytes[1] as usize | (bytes[2] as usize) << 8 | (bytes[3] as usize) << 16;
+    let mut pos = 4;
+    if length == 0 && lz11 {
+        if bytes.len() < 8 {
+            return false;
+        }
+        length = u32::from_le_bytes([bytes[4], bytes[5], bytes[6], bytes[7]]) as usize;
+        pos = 8;
+    }
+    let mut produced = 0;
+    while produced < length {
+        if pos >= bytes.len() {
+            return false;
+        }
+        let flags = bytes[pos];
+        pos += 1;
+        for bit in (0..8).rev() {
+            if produced >= length {
+                break;
+            }
+            if (flags >> bit) & 1 == 0 {
+                pos += 1;
+                produced += 1;
+                continue;
+            }
+            let form = if lz11 && pos < bytes.len() { bytes[pos] >> 4 } else { 2 };
+            let token_size = if !lz11 || form > 1 { 2 } else { 3 + form as usize };
+            if pos + token_size > bytes.len() {
+                return false;
+            }
+            let t = &bytes[pos..pos + token_size];
+            pos += token_size;
+            let (count, disp) = if !lz11 {
+                ((t[0] >> 4) as usize + 3, ((t[0] & 15) as usize) << 8 | t[1] as usize)
+            } else if form > 1 {
+                (form as usize + 1, ((t[0] & 15) as usize) << 8 | t[1] as usize)
+            } else if form == 0 {
+                (
+                    (((t[0] & 15) as usize) << 4) + (t[1] >> 4) as usize + 0x11,
+                    ((t[1] & 15) as usize) << 8 | t[2] as usize,
+                )
+            } else {
+                (
+                    (((t[0] & 15) as usize) << 12) + ((t[1] as usize) << 4) + (t[2] >> 4) as usize + 0x111,
+                    ((t[2] & 15) as usize) << 8 | t[3] as usize,
+                )
+            };
+            if disp + 1 > produced {
+                return true;
+            }
+            produced += count;
+        }
+    }
+    false
+}
+
 // Based on https://github.com/VelouriasMoon/FE3D/blob/main/FE3D/LZ13.cs
 fn calculate_lz13_header(bytes: &[u8]) -> Result<usize> {
     let mut max_lead = Wrapping(0i32);
@@ -177,7 +241,9 @@ impl LZ13CompressionFormat {
             Ok(result)
         } else {
             let truncated_input = if bytes[0] == 0x13 { &bytes[4..] } else { bytes };
-
+            if has_reference_before_start(truncated_input) {
+                return Err(CompressionError::InvalidInput("LZ13".to_string()));
+            }
             match decompress_arr(truncated_input) {
                 Ok(decompressed_data) => Ok(decompressed_data),
                 Err(_) => Err(CompressionError::InvalidInput("LZ13".to_string())),
